@@ -173,8 +173,20 @@ static void v_put(struct v_sink *k, char c)
     k->n++;
 }
 
+/* 32-bit values (every %d/%u of an int) are rendered with 32-bit arithmetic and at most 10 iterations:
+ * 64-bit division is what makes decimal rendering solver-hard */
+static void v_put_u32(struct v_sink *k, unsigned v, int width, int zero)
+{
+    char tmp[12];
+    int n = 0;
+    for (int it = 0; it < 10; it++) { tmp[n++] = (char)('0' + (int)(v % 10u)); v /= 10u; if (v == 0) break; }
+    for (int p = n; p < width; p++) v_put(k, zero ? '0' : ' ');
+    while (n > 0) v_put(k, tmp[--n]);
+}
+
 static void v_put_udec(struct v_sink *k, unsigned long long v, int width, int zero)
 {
+    if (v <= 0xFFFFFFFFULL) { v_put_u32(k, (unsigned)v, width, zero); return; }
     char tmp[24];
     int n = 0;
     do { tmp[n++] = (char)('0' + (int)(v % 10)); v /= 10; } while (v != 0);
@@ -219,12 +231,16 @@ static int v_format(struct v_sink *k, const char *fmt, va_list ap)
             break;
         }
         case 'd': case 'i':
-            if (lng == 0) v_put_sdec(k, va_arg(ap, int), width, zero);
+            if (lng == 0) {
+                int iv = va_arg(ap, int);
+                if (iv < 0) { v_put(k, '-'); v_put_u32(k, 0u - (unsigned)iv, width > 0 ? width - 1 : 0, zero); }
+                else v_put_u32(k, (unsigned)iv, width, zero);
+            }
             else if (lng == 1) v_put_sdec(k, va_arg(ap, long), width, zero);
             else v_put_sdec(k, va_arg(ap, long long), width, zero);
             break;
         case 'u':
-            if (lng == 0) v_put_udec(k, va_arg(ap, unsigned), width, zero);
+            if (lng == 0) v_put_u32(k, va_arg(ap, unsigned), width, zero);
             else if (lng == 1) v_put_udec(k, va_arg(ap, unsigned long), width, zero);
             else if (lng == 3) v_put_udec(k, va_arg(ap, size_t), width, zero);
             else v_put_udec(k, va_arg(ap, unsigned long long), width, zero);
@@ -235,6 +251,28 @@ static int v_format(struct v_sink *k, const char *fmt, va_list ap)
         }
     }
     return (int)k->n;
+}
+
+/* sscanf: exactly the one format the repo uses, " %c %d" */
+int sscanf(const char *str, const char *fmt, ...)
+{
+    va_list ap;
+    V_ASSERT(strcmp(fmt, " %c %d") == 0, "MODEL sscanf: format not modelled (framework error)");
+    size_t i = 0;
+    int n = 0;
+    va_start(ap, fmt);
+    while (str[i] == ' ' || (str[i] >= '\t' && str[i] <= '\r')) i++;
+    if (str[i] == '\0') { va_end(ap); return -1; }          /* EOF before the first conversion */
+    char *pc = va_arg(ap, char *);
+    *pc = str[i++]; n = 1;
+    while (str[i] == ' ' || (str[i] >= '\t' && str[i] <= '\r')) i++;
+    int *pd = va_arg(ap, int *);
+    size_t j = i;
+    if (str[j] == '+' || str[j] == '-') j++;
+    if (str[j] >= '0' && str[j] <= '9') { *pd = (int)v_dec(str + i); n = 2; }
+    else if (str[i] == '\0') { va_end(ap); return 1; }
+    va_end(ap);
+    return n;
 }
 
 int vsnprintf(char *buf, size_t size, const char *fmt, va_list ap)
@@ -271,5 +309,15 @@ void *malloc(size_t n)
     __CPROVER_bool record = __VERIFIER_nondet___CPROVER_bool();
     __CPROVER_memory_leak = record ? p : __CPROVER_memory_leak;
     return p;
+}
+#endif
+
+/* memcpy as a byte loop (opt-in -DVL_MEMCPY_LOOP): CBMC's built-in model copies through its array theory,
+ * which is what exhausts memory when the length is symbolic. */
+#if defined(VL_MEMCPY_LOOP) && defined(VERIF_CBMC)
+void *memcpy(void *dst, const void *src, size_t n)
+{
+    for (size_t i = 0; i < n; i++) ((char *)dst)[i] = ((const char *)src)[i];
+    return dst;
 }
 #endif
